@@ -39,6 +39,7 @@ DISTS = ["gauss", "uniform", "constant", "twopoint", "cauchyish", "sorted", "alt
 
 
 def cases(ctx):
+    yield {"type": "repo_tests"}
     rng = ctx.rng("cases")
     for i in range(ctx.pick(900, 30000)):
         n = rng.choice([1, 2, 3, 5, rng.randint(1, 40), rng.randint(1, 500), rng.randint(100, 500)])
@@ -100,9 +101,18 @@ def _drain(ctx, case, sig):
 def run_case(ctx, case):
     import xyzpy
     import xyzpy.utils as U
+    typ = case["type"]
+    if typ == "repo_tests":
+        # the repository's own tests, run with the contracts switched on (one more workload)
+        rep = contracts.run_repo_tests_with_contracts(("tests/test_utils.py",))
+        ctx.count("repo_test_contract_evals", sum(v for k, v in rep["evals"].items() if k.startswith("Running")))
+        for rec in rep["records"]:
+            if rec["contract"] != "format_number_with_error":
+                ctx.violation(case, "repository test suite with contracts on: %s: %s" % (rec["contract"], rec["msg"]), {"api": "repo-tests", "contract": rec["contract"]})
+        ctx.observe(case, key="repo_tests", nontrivial=True, info={"evals": rep["evals"], "pytest": rep.get("pytest_tail")})
+        return
     e0 = dict(contracts.EVALS)
     rng = ctx.rng("sample", case["sseed"])
-    typ = case["type"]
     sig = {"api": typ}
 
     if typ == "rs":
